@@ -63,3 +63,54 @@ def load():
     os.makedirs(C.BUILD, exist_ok=True)
     json.dump(out, open(cache, "w"))
     return out
+
+
+def format_trees():
+    """every tree literal the repository's own tests hand to format(...) (extracted with `ast`), plus the expected
+    trees of assertEqual(parse(...), {...}) style tests: shapes the formatter has dedicated branches for"""
+    files = sorted(glob.glob(os.path.join(C.REPO, "tests", "*.py")))
+    h = hashlib.sha1()
+    for f in files:
+        h.update(open(f, "rb").read())
+    cache = os.path.join(C.BUILD, "fmt_trees_%s.json" % h.hexdigest()[:16])
+    if os.path.exists(cache):
+        return json.load(open(cache))
+    out = []
+    seen = set()
+
+    def add(v):
+        if isinstance(v, (dict, list)) and v:
+            try:
+                k = json.dumps(v, sort_keys=True)
+            except Exception:
+                return
+            if k not in seen and len(k) < 6000:
+                seen.add(k)
+                out.append(v)
+
+    for f in files:
+        try:
+            with warnings.catch_warnings():
+                warnings.simplefilter("ignore")
+                tree = ast.parse(open(f).read())
+        except Exception:
+            continue
+        for node in ast.walk(tree):
+            if isinstance(node, ast.Call):
+                fn = node.func
+                name = fn.attr if isinstance(fn, ast.Attribute) else getattr(fn, "id", "")
+                if name == "format" and node.args:
+                    try:
+                        add(ast.literal_eval(node.args[0]))
+                    except Exception:
+                        pass
+            elif isinstance(node, ast.Assign) and isinstance(node.value, ast.Dict):
+                try:
+                    v = ast.literal_eval(node.value)
+                except Exception:
+                    continue
+                if isinstance(v, dict) and any(k in v for k in ("select", "select_distinct", "from", "insert", "update", "delete", "union", "union_all", "create table", "with")):
+                    add(v)
+    os.makedirs(C.BUILD, exist_ok=True)
+    json.dump(out, open(cache, "w"))
+    return out
